@@ -65,7 +65,7 @@ func (g *egen) selFor(parts []string) (xgen.Sel, bool) {
 	return xgen.Sel{Parts: parts, Spell: sp}, true
 }
 
-var brokenParts = []string{"zz", "missing", "Zz", "99", "0", "-1", "x", "", "1e3", "01"}
+var brokenParts = []string{"zz", "missing", "Zz", "99", "0", "-1", "x", "", "1e3", "01", "08", "010", "0x2", "1_0", "007", "011"}
 
 // pickPath returns a path (full selector parts) and the node it resolves to
 // (nil if broken or unknown).
